@@ -1,5 +1,8 @@
 import NflowsModel.Real.Bridge
 import NflowsModel.Lemmas.DualSound
+import NflowsModel.Lemmas.DualX
+import NflowsModel.Lemmas.DualXNonlin
+import NflowsModel.Lemmas.DualXSpline
 /-!
 # C16 — log_prob and transforms are differentiable with correct gradients  (PARTIAL)
 
@@ -9,8 +12,12 @@ real semantics along the seeded direction — wherever the term is `Smooth` (no 
 zero, no comparison at equality: "away from the finitely many kinks"); and the executed RQ forward term is
 `Smooth` in the interior of its bin for every parameter value, so its value is differentiable in the input AND in
 every parameter (width, height, knot derivatives), with the derivative the dual evaluation returns.
-What is trusted: PyTorch autograd for compositions of built-in ops (chain rule through conditioners, sums over
-features) and the dual rules of the primitives outside `Expr` (tanh, atan, …).
+Since the `DualX*` lemma files: the tangent rules of ALL primitives of `XOps` (tanh, atan, tan, cos, sin, atan2, abs, floor,
+log1p, softplus with its threshold, sigmoid, min/max/clamp, sign) are sound at the reals away from their stated kinks; every
+element-wise transformer of `Core/Nonlin.lean`, run on dual numbers, returns its value paired with the true derivative — in the
+input and in its own parameters; and the whole executed rational-quadratic PROGRAM (softmax, cumsum, search, gather included)
+run on the dual input `(x, 1)` returns `(value, exp(log-det))`.
+What is trusted: PyTorch autograd for compositions of built-in ops (chain rule through conditioners, sums over features).
 -/
 open DualSound NF
 
@@ -51,6 +58,69 @@ theorem rq_executed_derivative_is_dual {x xk w yk h d0 d1 : ℝ} (dir : Nat → 
 /-- value component of the dual evaluation is the ordinary evaluation (so outputs are unchanged by taking gradients) -/
 theorem dual_value_eq (env dir : Nat → ℝ) (e : Expr) (hs : Smooth env e) :
     (evalD (fun i => (env i, dir i)) e).1 = evalR env e := (evalDual_sound env dir e hs).1
+
+/-! ## beyond `Expr`: all primitives, the element-wise transformers, the whole RQ program -/
+
+/-- `IsDual f t d`: the dual number `d` is (value of `f` at `t`, derivative of `f` at `t`).  Every primitive of the dual-number
+    semantics the driver runs maps `IsDual` inputs to an `IsDual` output of the composed real function — here the ones outside
+    the expression language (no side condition for `tanh`, `atan`, `sin`, `cos`; the stated ones for the rest). -/
+theorem dual_primitives_sound (e : Float → ℝ) {f : ℝ → ℝ} {t : ℝ} {a : ℝ × ℝ} (h : DualX.IsDual f t a) :
+    DualX.IsDual (fun s => (NF.realX e).tanh (f s)) t ((NF.dualX (NF.realX e)).tanh a) ∧
+    DualX.IsDual (fun s => (NF.realX e).atan (f s)) t ((NF.dualX (NF.realX e)).atan a) ∧
+    DualX.IsDual (fun s => (NF.realX e).sin (f s)) t ((NF.dualX (NF.realX e)).sin a) ∧
+    DualX.IsDual (fun s => (NF.realX e).cos (f s)) t ((NF.dualX (NF.realX e)).cos a) ∧
+    DualX.IsDual (fun s => (NF.realX e).sigmoid (f s)) t ((NF.dualX (NF.realX e)).sigmoid a) ∧
+    (Real.cos a.1 ≠ 0 → DualX.IsDual (fun s => (NF.realX e).tan (f s)) t ((NF.dualX (NF.realX e)).tan a)) ∧
+    (a.1 ≠ 0 → DualX.IsDual (fun s => (NF.realX e).abs (f s)) t ((NF.dualX (NF.realX e)).abs a)) ∧
+    (a.1 ≠ 20 → DualX.IsDual (fun s => (NF.realX e).softplus (f s)) t ((NF.dualX (NF.realX e)).softplus a)) :=
+  ⟨h.tanh e, h.atan e, h.sin e, h.cos e, h.sigmoid e, fun hc => h.tan e hc, fun h0 => h.abs e h0, fun h20 => h.softplus e h20⟩
+
+/-- **`Tanh.forward` on dual numbers** (the stable log-det formula): at every `x ≠ −10` (the softplus threshold) the dual run on
+    `(x, 1)` returns `((y, y'), (l, l'))` where `(y, l)` is the real run and `y'`, `l'` are the derivatives of the real program's
+    two outputs — so the model's gradient of value AND log-det is the true one. -/
+theorem tanh_forward_dual (e : Float → ℝ) (x : ℝ) (hm2 : e (-2.0) = -2) (hthr : x ≠ -10) :
+    DualX.DualRes (fun s => tanhT (NF.realX e) false s) x (tanhT (NF.dualX (NF.realX e)) false (x, 1)) :=
+  DualX.tanhT_fwd_dx e x hm2 hthr
+
+/-- `Sigmoid.forward`: input direction and temperature direction (a learnt temperature receives its true gradient) -/
+theorem sigmoid_forward_dual (e : Float → ℝ) (T : ℝ) (eps : Float) (x : ℝ) (hT : T ≠ 0) (hthr1 : T * x ≠ 20) (hthr2 : T * x ≠ -20) :
+    DualX.DualRes (fun s => sigmoidT (NF.realX e) T eps false s) x (sigmoidT (NF.dualX (NF.realX e)) (T, 0) eps false (x, 1)) ∧
+    DualX.DualRes (fun s => sigmoidT (NF.realX e) s eps false x) T (sigmoidT (NF.dualX (NF.realX e)) (T, 1) eps false (x, 0)) :=
+  ⟨DualX.sigmoidT_fwd_dx e T eps x hT hthr1 hthr2, DualX.sigmoidT_fwd_dT e T eps x hT hthr1 hthr2⟩
+
+/-- affine element: input, scale and shift directions, both passes -/
+theorem affine_dual (e : Float → ℝ) (scale shift x : ℝ) (h0 : scale ≠ 0) :
+    DualX.DualRes (fun s => affineT (NF.realX e) scale shift false s) x (affineT (NF.dualX (NF.realX e)) (scale, 0) (shift, 0) false (x, 1)) ∧
+    DualX.DualRes (fun s => affineT (NF.realX e) s shift false x) scale (affineT (NF.dualX (NF.realX e)) (scale, 1) (shift, 0) false (x, 0)) ∧
+    DualX.DualRes (fun s => affineT (NF.realX e) scale s false x) shift (affineT (NF.dualX (NF.realX e)) (scale, 0) (shift, 1) false (x, 0)) ∧
+    DualX.DualRes (fun s => affineT (NF.realX e) scale shift true s) x (affineT (NF.dualX (NF.realX e)) (scale, 0) (shift, 0) true (x, 1)) :=
+  ⟨DualX.affineT_fwd_dx e scale shift x h0, DualX.affineT_fwd_dscale e scale shift x h0, DualX.affineT_fwd_dshift e scale shift x h0,
+   DualX.affineT_inv_dx e scale shift x h0⟩
+
+/-- `LeakyReLU` away from its kink `x = 0`, `Exp`, `CauchyCDF` -/
+theorem leakyRelu_exp_cauchy_dual (e : Float → ℝ) (slope : Float) (ls x : ℝ) (h0 : x ≠ 0) :
+    DualX.DualRes (fun s => leakyReluT (NF.realX e) slope ls false s) x (leakyReluT (NF.dualX (NF.realX e)) slope (ls, 0) false (x, 1)) ∧
+    DualX.DualRes (fun s => expT (NF.realX e) false s) x (expT (NF.dualX (NF.realX e)) false (x, 1)) ∧
+    DualX.DualRes (fun s => cauchyT (NF.realX e) false s) x (cauchyT (NF.dualX (NF.realX e)) false (x, 1)) :=
+  ⟨DualX.leakyReluT_fwd_dx e slope ls x h0, DualX.expT_fwd_dx e x, DualX.cauchyT_fwd_dx e x⟩
+
+/-- **the value components of ANY dual run of an element-wise transformer are the real run** (kinks and error branches
+    included): taking gradients never changes outputs -/
+theorem nonlin_dual_value (e : Float → ℝ) (kind : String) (dsF : Array Float) (ps : List (ℝ × ℝ)) (inv : Bool) (dx : ℝ × ℝ) :
+    DualX.XHom.mapRes Prod.fst (nonlinEl (NF.dualX (NF.realX e)) kind dsF ps inv dx)
+      = nonlinEl (NF.realX e) kind dsF (ps.map Prod.fst) inv dx.1 :=
+  DualX.nonlinEl_value e kind dsF ps inv dx
+
+/-- **the whole executed rational-quadratic program on dual numbers**: for `x` strictly inside a bin, `rqSpline` run at
+    `dualX (realX e)` on `(x, 1)` with zero-tangent parameters returns `((val x, exp (ld x)), (ld x, l'))` — the search and the
+    gathers select the same bin as the real run, the tangent of the value is `exp` of the returned log-det (C01 and C16 meet),
+    and the tangent of the log-det is its true derivative. -/
+theorem rq_program_dual (e : Float → ℝ) (c : RQCfg) (uw uh ud : List ℝ) (hv : RQWhole.RQValid e c uw uh ud)
+    (k : ℕ) (hk : k < uw.length) (x : ℝ) (h0 : RQWhole.xs e c uw k < x) (h1 : x < RQWhole.xs e c uw (k+1)) :
+    ∃ l' : ℝ, rqSpline (NF.dualX (NF.realX e)) c (uw.map DualX.ι) (uh.map DualX.ι) (ud.map DualX.ι) false (x, 1)
+        = .ok ((RQWhole.val e c uw uh ud x, Real.exp (RQWhole.ld e c uw uh ud x)), (RQWhole.ld e c uw uh ud x, l')) ∧
+      HasDerivAt (RQWhole.val e c uw uh ud) (Real.exp (RQWhole.ld e c uw uh ud x)) x ∧ HasDerivAt (RQWhole.ld e c uw uh ud) l' x :=
+  DualX.rqSpline_dual hv k hk x h0 h1
 
 example : Smooth (Bridge.rqEnv 0.3 0 1 0 1 1 1) rqFwdE :=
   rq_interior_smooth (by norm_num) (by norm_num) (by norm_num) (by norm_num) (by norm_num) (by norm_num)
